@@ -237,6 +237,8 @@ def _cvc5(smt, timeout_ms):
 def run_config(contract, cfg, facets="VCSTRN", prime=None, tier="quick", max_paths=4000):
     """Explore all paths of contract's function under cfg.  Returns a dict (JSON-able)."""
     t0 = time.time()
+    import sys as _sys
+    _sys.unraisablehook = lambda *a: None      # interpreted __del__ methods of abandoned paths
     prime = prime or gh.PRIMES[cfg.get("prime", "bn254")]
     timeout_ms = QUICK_TIMEOUT_MS if tier == "quick" else QUICK_TIMEOUT_MS * 6
     res = dict(function=contract.name, cfg=_cfg_repr(cfg), paths=0, normal_paths=0, raise_paths=0,
@@ -319,6 +321,7 @@ def run_config(contract, cfg, facets="VCSTRN", prime=None, tier="quick", max_pat
                     if not matching:
                         obs.append(("R.unexpected_exception[%s]" % type(e).__name__, [], z3.BoolVal(False), None))
                         res.setdefault("exc_detail", []).append("%s: %s" % (type(e).__name__, str(e)[:200]))
+                        res.setdefault("exc_by_path", {})[psig] = "%s: %s" % (type(e).__name__, str(e)[:160])
                     else:
                         obs.append(("R.raise_implies_cond[%s]" % type(e).__name__, [],
                                     z3.Or(*[formula(cnd) for _, cnd in matching]), None))
@@ -383,6 +386,8 @@ def run_config(contract, cfg, facets="VCSTRN", prime=None, tier="quick", max_pat
                 ob = dict(name=nm, path=psig, verdict=verdict, s=round(secs, 4), backend=backend)
                 if nm.startswith("canary"):
                     ob["canary"] = True
+                if nm.startswith("R.unexpected_exception") and psig in res.get("exc_by_path", {}):
+                    ob["detail"] = res["exc_by_path"][psig]
                 if model is not None:
                     ob["model"] = {k: v for k, v in model.items()
                                    if k.startswith(("s_", "k_", "a_"))}
@@ -494,13 +499,18 @@ def _result_sig(c, r):
         return tuple(_result_sig(c, x) for x in r)
     if isinstance(r, dict):
         return tuple((k, _result_sig(c, v)) for k, v in r.items())
-    if hasattr(r, "lc"):
-        try:
-            return (type(r).__name__, c.g.lc_sig(c.lc(r)))
-        except Exception:
-            return (type(r).__name__,)
-    if hasattr(r, "arr"):
-        return ("Array", _result_sig(c, r.arr))
+    try:
+        if hasattr(r, "lc"):
+            try:
+                return (type(r).__name__, c.g.lc_sig(c.lc(r)))
+            except Exception:
+                return (type(r).__name__,)
+        if hasattr(r, "arr"):
+            return ("Array", _result_sig(c, r.arr))
+        if hasattr(r, "vals") and isinstance(r.vals, dict):
+            return ("vals", tuple((k, _result_sig(c, v)) for k, v in r.vals.items()))
+    except Exception:
+        pass
     return (type(r).__name__,)
 
 
